@@ -29,9 +29,7 @@ def _bfs_worker(args):
     try:
         core.guarded(body, col, chunk[:1])
     except BaseException as e:
-        col.violations.setdefault("__harness__", []).append(
-            core.Violation("__harness__", "".join(traceback.format_exception(e))[-3000:],
-                           core.jsonable(chunk[:1])))
+        core.record_escape(col, e, chunk[:1])
     col.count("transitions", ntrans)
     return col, out
 
